@@ -56,6 +56,7 @@ type toolPlan struct {
 	FragSeed  uint64   `json:"frag_seed,omitempty"` // != 0: response bodies arrive in seeded short reads, the last one possibly with io.EOF
 	Canonical bool     `json:"canonical,omitempty"`
 	NoDir     bool     `json:"no_dir,omitempty"` // fault run: target directory missing (no verdict)
+	Env       []string `json:"env,omitempty"`    // additions to the tool's process environment (variables it is seen to read)
 }
 
 func (p *toolPlan) faultRun() bool {
@@ -244,6 +245,10 @@ func (g *c17Engine) run(tp *toolPlan) (*toolVerdict, map[string]int, error) {
 	if tp.FragSeed != 0 {
 		env = append(env, "BIP39_VERIF_FRAG="+strconv.FormatUint(tp.FragSeed, 10))
 		stats["runs_with_fragmented_bodies"]++
+	}
+	if len(tp.Env) > 0 {
+		env = append(env, tp.Env...)
+		stats["runs_with_environment_set"]++
 	}
 	p := g.e.RunProc(120*time.Second, env, work, g.bin)
 	if tp.faultRun() {
@@ -629,6 +634,8 @@ func CheckC17(e *Env) (int, error) {
 	if e.Tier == "thorough" {
 		n = 150000
 	}
+	envNames, envOpaque := instr.ToolEnvNames(e.RepoCopy(), "update-wordlist")
+	envVals := append([]string{"1", "true", "0", "ci", "C", "en_US.UTF-8", "ja_JP.UTF-8"}, instr.ToolEnvValues(e.RepoCopy(), "update-wordlist")...)
 	var mu sync.Mutex
 	var viols []*Violation
 	var trouble error
@@ -642,6 +649,10 @@ func CheckC17(e *Env) (int, error) {
 	e.Logf("C17: %d tool runs (map ranges rewritten: %d, uncontrolled ranges: %d)", n, rep.MapRanges, rep.OtherRanges)
 	e.Parallel(n, func(i int) {
 		tp := genToolPlan(plan.Derive(e.Seed, "C17/run", uint64(i)), i)
+		if len(envNames) > 0 && i%8 == 5 { // the environment is no input file: one variable the tool is seen to read, set
+			k := i / 8
+			tp.Env = []string{envNames[k%len(envNames)] + "=" + envVals[(k/len(envNames))%len(envVals)]}
+		}
 		v, st, err := g.run(tp)
 		mu.Lock()
 		defer mu.Unlock()
@@ -716,24 +727,26 @@ func CheckC17(e *Env) (int, error) {
 		fmt.Println("PROBE-ZERO C17: truncation_needed_and_happened")
 	}
 	cov := map[string]interface{}{
-		"evaluations":                runs,
-		"distinct_nontrivial":        len(distinct),
-		"rule":                       "a case = one run of the real update-wordlist binary (built with -tags verif, its map range rewritten to a seed-chosen order) against a simulated upstream (in-process file transport, ten generated files of letters and combining marks in 20 alphabets (scripts and letter/mark categories), 0-5000 lines and occasionally 70k-260k lines (> 1 MiB), blank lines, duplicates, with/without trailing newline; in half of the runs the response bodies arrive in seeded short reads, the last bytes possibly together with io.EOF; every 25th run the frozen canonical lists) and a seeded disk pre-state per target (absent, much longer stale file, shorter file, junk; one target in twelve is a relative, absolute or dangling symbolic link into a sibling directory), in a third of the runs also leftovers of a killed earlier run under the temporary names such tools use (<lang>.go.tmp, .new, .partial, ...). Each output is parsed and type-checked and compared entry by entry with the non-empty input lines. Non-trivial: >= 1 target had a pre-existing file and >= 1 word is non-ASCII; distinct by digest of (inputs, pre-state, order).",
-		"exhaustive":                 false,
-		"samples":                    samples,
-		"runs":                       runs,
-		"sim_steps_total":            tot["lists_verified"],
-		"sim_time_note":              "no clock in the tool; counted in files generated and verified",
-		"lists_verified":             tot["lists_verified"],
-		"words_verified":             tot["words_verified"],
-		"canonical_lists_reproduced": tot["canonical_lists_reproduced"],
-		"faults_fired":               map[string]int{"prestate_longer": tot["prestate_longer"], "prestate_shorter": tot["prestate_shorter"], "prestate_junk": tot["prestate_junk"], "prestate_absent": tot["prestate_absent"], "prestate_symlink_relative": tot["prestate_symlink-rel"], "prestate_symlink_absolute": tot["prestate_symlink-abs"], "prestate_symlink_dangling": tot["prestate_symlink-dangling"], "fault_runs_no_verdict": tot["fault_runs_no_verdict"], "fault_runs_tool_failed": tot["fault_runs_tool_failed"]},
-		"probes":                     map[string]int{"truncation_needed_and_happened": tot["truncation_needed_and_happened"], "distinct_fetch_orders": len(firstLang), "runs_with_fragmented_bodies": tot["runs_with_fragmented_bodies"], "stray_leftover_files_of_a_killed_run": tot["stray_leftover_files"], "runs_with_a_file_over_64Ki_lines": scripts["runs_with_a_file_over_64Ki_lines"], "canonical_runs": scripts["canonical"]},
-		"map_ranges_rewritten":       rep.MapRanges,
-		"uncontrolled_ranges":        rep.OtherRanges,
-		"schedule_space_note":        "10! fetch orders x 5^10 pre-states: real but shallow; most of the strength is the workload through the simulated upstream",
-		"raw_violations":             len(viols),
-		"outcome_digest":             od.String(),
+		"evaluations":                            runs,
+		"distinct_nontrivial":                    len(distinct),
+		"rule":                                   "a case = one run of the real update-wordlist binary (built with -tags verif, its map range rewritten to a seed-chosen order) against a simulated upstream (in-process file transport, ten generated files of letters and combining marks in 20 alphabets (scripts and letter/mark categories), 0-5000 lines and occasionally 70k-260k lines (> 1 MiB), blank lines, duplicates, with/without trailing newline; in half of the runs the response bodies arrive in seeded short reads, the last bytes possibly together with io.EOF; every 25th run the frozen canonical lists) and a seeded disk pre-state per target (absent, much longer stale file, shorter file, junk; one target in twelve is a relative, absolute or dangling symbolic link into a sibling directory), in a third of the runs also leftovers of a killed earlier run under the temporary names such tools use (<lang>.go.tmp, .new, .partial, ...). Each output is parsed and type-checked and compared entry by entry with the non-empty input lines. Non-trivial: >= 1 target had a pre-existing file and >= 1 word is non-ASCII; distinct by digest of (inputs, pre-state, order).",
+		"exhaustive":                             false,
+		"samples":                                samples,
+		"runs":                                   runs,
+		"sim_steps_total":                        tot["lists_verified"],
+		"sim_time_note":                          "no clock in the tool; counted in files generated and verified",
+		"environment_variables_read_by_the_tool": envNames,
+		"environment_reads_with_opaque_names":    envOpaque,
+		"lists_verified":                         tot["lists_verified"],
+		"words_verified":                         tot["words_verified"],
+		"canonical_lists_reproduced":             tot["canonical_lists_reproduced"],
+		"faults_fired":                           map[string]int{"prestate_longer": tot["prestate_longer"], "prestate_shorter": tot["prestate_shorter"], "prestate_junk": tot["prestate_junk"], "prestate_absent": tot["prestate_absent"], "prestate_symlink_relative": tot["prestate_symlink-rel"], "prestate_symlink_absolute": tot["prestate_symlink-abs"], "prestate_symlink_dangling": tot["prestate_symlink-dangling"], "fault_runs_no_verdict": tot["fault_runs_no_verdict"], "fault_runs_tool_failed": tot["fault_runs_tool_failed"]},
+		"probes":                                 map[string]int{"truncation_needed_and_happened": tot["truncation_needed_and_happened"], "distinct_fetch_orders": len(firstLang), "runs_with_fragmented_bodies": tot["runs_with_fragmented_bodies"], "stray_leftover_files_of_a_killed_run": tot["stray_leftover_files"], "runs_with_a_file_over_64Ki_lines": scripts["runs_with_a_file_over_64Ki_lines"], "canonical_runs": scripts["canonical"]},
+		"map_ranges_rewritten":                   rep.MapRanges,
+		"uncontrolled_ranges":                    rep.OtherRanges,
+		"schedule_space_note":                    "10! fetch orders x 5^10 pre-states: real but shallow; most of the strength is the workload through the simulated upstream",
+		"raw_violations":                         len(viols),
+		"outcome_digest":                         od.String(),
 	}
 	if err := e.WriteEvidence("C17", "exploration", cov, []string{
 		"go/parser, go/types and strconv.Unquote decide what a generated file 'contains'",
